@@ -427,8 +427,36 @@ export async function localiseSource(ctx, item, rootT, v, want, options) {
           const loc = await localise(env, core, x, judge, { impl, ref: r });
           return { signature: loc.signature, text: coreProgramText(env, loc.core), value: loc.value, impl, ref: r, op: `result of ${describeOp(env, S)}` };
         }
+        // attribution by re-execution: an operand that has no values because of a `never` inside it (a
+        // tuple slot, a required property) is `never` for the semantic engine, not for TypeScript; does
+        // the operator agree with the reference once every `never` is spelled `null`?
+        let cause = "";
+        let mentionsNever = false;
+        mapType(S, (y) => {
+          if (y.k === "kw" && y.name === "never") mentionsNever = true;
+          return y;
+        });
+        if (mentionsNever && !strict) {
+          try {
+            const S2 = mapType(S, (y) => (y.k === "kw" && y.name === "never" ? { k: "kw", name: "null" } : y));
+            const core2 = env.norm(S2);
+            const text2 = renderProgram({ decls: prog.decls, parsers: [{ name: "X", t: S2 }] });
+            const res2 = await ctx.compiler.compile({ files: { "entry.ts": text2 }, settings: ALL_SETTINGS });
+            if (res2.outcome === "code") {
+              const parser2 = buildAll(loadModule(res2.code, ALL_SETTINGS)).X;
+              const vg2 = new ValGen(new Rng(ctx.seed, "srcloc2|" + text2.length), env);
+              const ms2 = vg2.members(core2, 10);
+              const cands2 = [...subValues, ...ms2, ...ms2.flatMap((m) => vg2.mutants(m, 2)), ...hostilePool()].filter((y) => !isCyclic(y));
+              const agrees = cands2.every((y) => {
+                const r2 = item.ref.member(core2, y);
+                return r2 === "U" || implOf(parser2, y) === r2;
+              });
+              if (agrees) cause = "|cause:never-spelled-as-null-agrees";
+            }
+          } catch {}
+        }
         return {
-          signature: `${impl.startsWith("T:") ? "throws" : impl}/${r}|src:${describeOp(env, S)}`,
+          signature: `${impl.startsWith("T:") ? "throws" : impl}/${r}|src:${describeOp(env, S)}${cause}`,
           text,
           value: x,
           impl,
